@@ -389,7 +389,7 @@ func c11sServerSocketsOpen(servPort int, ports map[int]bool) (open map[int]bool,
 
 type c11sRoundCfg struct {
 	Name  string   `json:"config"`
-	Kind  string   `json:"kind"` // listing | slots | expiry
+	Kind  string   `json:"kind"` // listing | slots | expiry | nonce
 	Flags []string `json:"flags"`
 	Hooks string   `json:"verifhook,omitempty"`
 	Seed  uint64   `json:"seed"`
@@ -424,6 +424,15 @@ func c11sRounds(tier string, seed uint64) []c11sRoundCfg {
 				c11sRoundCfg{Name: "receiver-limit-3-jitter", Kind: "slots", Flags: flags("--max-receivers-per-sender", "3"), Hooks: jit()},
 				c11sRoundCfg{Name: "session-lifetime-3s-jitter", Kind: "expiry", Flags: flags("--max-receivers-per-sender", "0", "--session-timeout", "3s"), Hooks: jit()},
 			)
+		}
+	}
+	// appended last so that the rounds above keep their seeds: connections with repeated handshake fields (c11_serv_nonce.go)
+	out = append(out,
+		c11sRoundCfg{Name: "same-handshake", Kind: "nonce", Flags: flags("--max-receivers-per-sender", "0")},
+		c11sRoundCfg{Name: "same-handshake-jitter", Kind: "nonce", Flags: flags("--max-receivers-per-sender", "0"), Hooks: jit()})
+	if tier == "thorough" {
+		for rep := 0; rep < 4; rep++ {
+			out = append(out, c11sRoundCfg{Name: "same-handshake-jitter", Kind: "nonce", Flags: flags("--max-receivers-per-sender", "0"), Hooks: jit()})
 		}
 	}
 	for i := range out {
@@ -522,6 +531,9 @@ type c11sRound struct {
 	stallersStarted int
 	churnDone       atomic.Int64
 	probeSeq        atomic.Int64
+
+	// connections with equal handshake fields (c11_serv_nonce.go)
+	nonceConns, nonceConnsReached int
 }
 
 func (rd *c11sRound) caseSpec(extra map[string]any) map[string]any {
@@ -1577,7 +1589,8 @@ func (rd *c11sRound) runExpiry() {
 func runC11Serv(e *Env) {
 	R := e.R
 	R.Rule = "evaluations = client connections driven against the real thruserv that ended at a chosen point of their life (9 disconnect points x FIN/RST/close frame, receiver/sender role, fresh/re-used id; " +
-		"plus non-readers: 3 stall points x FIN/RST that stay connected without reading until the server-side write is blocked, alone / replaced by a second connection under their id / during the churn / holding receiver slots / until the session expires); " +
+		"plus non-readers: 3 stall points x FIN/RST that stay connected without reading until the server-side write is blocked, alone / replaced by a second connection under their id / during the churn / holding receiver slots / until the session expires; " +
+		"plus connections that present byte-identical handshake fields (Sec-WebSocket-Key etc.) while live together: a reconnect under the same id, two peers of one session, peers of two sessions x FIN/RST/close frame of the one that leaves); " +
 		"a distinct non-trivial case = (server configuration, session kind, disconnect point/close, role, id class, path the server's handler took per its own output: no-add | add-early-exit | add-readloop) of a case that reached its point"
 	bin := filepath.Join(e.BinDir, "thruserv")
 	if _, err := os.Stat(bin); err != nil {
@@ -1594,6 +1607,9 @@ func runC11Serv(e *Env) {
 	vk.ParallelDo(len(rounds), 3, func(i int) {
 		cfg := rounds[i]
 		if c11sServStalled.Load() {
+			return
+		}
+		if only := os.Getenv("VERIF_C11S_KIND"); only != "" && cfg.Kind != only { // debugging aid: the run is then inconclusive (rounds missing)
 			return
 		}
 		rd := &c11sRound{e: e, cfg: cfg, agg: agg, rng: vk.NewRng(cfg.Seed), hlog: filepath.Join(e.Work, fmt.Sprintf("c11serv-%02d.hooks", i))}
@@ -1615,12 +1631,14 @@ func runC11Serv(e *Env) {
 			rd.runSlots()
 		case "expiry":
 			rd.runExpiry()
+		case "nonce":
+			rd.runNonce()
 		}
 		rd.serverHealth()
 		rd.closeAll()
 		rd.hookHits()
 		srv.Stop()
-		nCases, nReached := 0, 0
+		nCases, nReached := rd.nonceConns, rd.nonceConnsReached
 		var notReached []any
 		for _, s := range rd.sess {
 			for _, vc := range s.cases() {
@@ -1702,5 +1720,14 @@ func runC11Serv(e *Env) {
 	R.Require(c["connected_nonreaders_probed"] >= 10 && c["senders_of_a_nonreaders_session_answered"] >= 10, "too few probes of the sender / the routability of a connected non-reader")
 	R.Require(c["nonreaders_with_hub_queue_overflowed"] >= 6 && c["nonreader_overflowed_event:reconnect"] >= 2, fmt.Sprintf("only %d blocked non-readers had more messages routed to them than the hub queues (%d of them replaced by a reconnect)", c["nonreaders_with_hub_queue_overflowed"], c["nonreader_overflowed_event:reconnect"]))
 	R.Require(c["sessions_expired_with_a_blocked_nonreader"] >= 1, "no session expired while a blocked non-reader was in it")
+	// the handshake dimension: every history of connections with equal handshake fields reached its point (both
+	// connections registered, the leaving one's server end gone) with every close class and both kinds of key
+	for _, h := range c11nHists {
+		R.Require(c["nonce_cases_reached:"+h] >= 3, fmt.Sprintf("connections with equal handshake fields, history %s: only %d cases reached their point", h, c["nonce_cases_reached:"+h]))
+	}
+	for _, k := range []string{"close:fin", "close:rst", "close:wsclose", "key:rfc-sample", "key:random-per-case"} {
+		R.Require(c["nonce_cases_reached:"+k] >= 3, fmt.Sprintf("connections with equal handshake fields, %s: only %d cases reached their point", k, c["nonce_cases_reached:"+k]))
+	}
+	R.Require(c["nonce_connected_peers_judged"] >= 40 && c["nonce_departed_ids_checked"] >= 20, fmt.Sprintf("connections with equal handshake fields: only %d connected / %d departed peers judged", c["nonce_connected_peers_judged"], c["nonce_departed_ids_checked"]))
 	R.Require(c["server_hook_hits:hub.remove.afterUnlink"] >= 100, fmt.Sprintf("the server's own remove path was observed only %d times (hook log)", c["server_hook_hits:hub.remove.afterUnlink"]))
 }
